@@ -37,6 +37,13 @@ async def main():
     if asyncio.iscoroutine(res) or asyncio.isfuture(res):
         res = await res
     print(json.dumps(res.initial_result.formatted))
+    announced = {p["id"] for p in res.initial_result.formatted.get("pending", [])}
+    bad = []
     async for p in res.subsequent_results:
-        print(json.dumps(p.formatted))
-asyncio.run(main())
+        f = p.formatted
+        print(json.dumps(f))
+        announced |= {e["id"] for e in f.get("pending", [])}
+        bad += [e["id"] for e in f.get("completed", []) if e["id"] not in announced]
+    print("VIOLATION: completed ids never announced: %s" % bad if bad else "OK")
+    return bool(bad)
+raise SystemExit(1 if asyncio.run(main()) else 0)
